@@ -14,7 +14,10 @@ mod unit;
 
 pub(crate) use formatting_style::FormattingStyle;
 #[cfg(feature = "verif-hooks")]
-pub(crate) use {bigrat::verif_hooks as hooks_bigrat, biguint::verif_hooks as hooks_biguint};
+pub(crate) use {
+	bigrat::verif_hooks as hooks_bigrat, biguint::verif_hooks as hooks_biguint,
+	complex::verif_hooks as hooks_complex,
+};
 
 use crate::error::FendError;
 
